@@ -247,9 +247,9 @@ def run(facts, rep, tier, file_filter=None, pid="C02"):
         allow, why = NOP_EXCEPTIONS.get(name, (0, ""))
         if not allow and b.kind != "closure":
             # the tabled exception follows the code when it is moved into a helper that only the excepted function calls
-            callers = {(cb_.root or n_) for n_, cb_ in mpc_bodies(facts) for _, t_ in cb_.calls() if callee_name(t_) == name}
-            if callers and all(c_ in NOP_EXCEPTIONS for c_ in callers):
-                allow, why = NOP_EXCEPTIONS[sorted(callers)[0]]
+            exc_callers = {(cb_.root or n_) for n_, cb_ in mpc_bodies(facts) for _, t_ in cb_.calls() if callee_name(t_) == name}
+            if exc_callers and all(c_ in NOP_EXCEPTIONS for c_ in exc_callers):
+                allow, why = NOP_EXCEPTIONS[sorted(exc_callers)[0]]
                 why += " (moved into the helper %s)" % name.split("::")[-1]
         if "/mpc/" in b.file:
             for k, bb in enumerate(nops):
